@@ -6,7 +6,7 @@ import tomllib
 import tomlw
 import vp
 
-IDS = ["heroku/nodejs", "a/b", "x", "some.id/with-dash", "vp/n0", "deep/er/id"]
+IDS = ["heroku/nodejs", "a/b", "x", "some.id/with-dash", "vp/n0", "deep/er/id", "a/b/", "x/", "a/b.c", "a/b-"]      # "a/b/" and "a/b" are different, valid ids
 OTHER_URIS = ["docker://docker.io/heroku/procfile-cnb:2.0.1", "docker://REGISTRY.Example.com:5000/Img@sha256:0123abcd",
               "https://example.com/bp.tgz?q=1&x=y#frag", "http://h/p", "HTTPS://Example.COM/Mixed/Case", "urn:cnb:registry:heroku/nodejs@1.2.3",
               "file:///abs/path/bp.cnb", "docker:/single-slash", "urn:cnb:builder:one"]
@@ -61,9 +61,9 @@ def gen_case(r, idx):
             continue
         if i in referenced or r.random() < 0.5:
             style = r.random()
-            base = "/out/%d/%s" % (idx, i.replace("/", "_"))
+            base = "/out/%d/%s" % (idx, i.replace("/", "_") + ("-slash" if i.endswith("/") else ""))
             if style < 0.2:
-                base = "/out/./%d/../%d/%s" % (idx, idx, i.replace("/", "_"))
+                base = "/out/./%d/../%d/%s" % (idx, idx, i.replace("/", "_") + ("-slash" if i.endswith("/") else ""))
             mapping[i] = base
     return {"idx": idx, "loc": loc, "deps": deps, "os": os_, "bp_uri": bp_uri, "map": mapping, "missing": missing, "kinds": kinds}
 
